@@ -14,8 +14,8 @@ LEVEL = "proof"
 EXTRA_PROPS = ["QuantemModel.Props.C01Tie", "QuantemModel.Props.C01Ext"]
 MANIFEST_ENTRY = {
     "category": "proof",
-    "text": "Lean 4 theorem `roundtrip` (structural induction over the whole value universe, any depth/width/mix): decode(encode v) = canon v for every well-formed object graph of the executable model of serialize.py (ndarray fast path with NumPy promotion, empty/0-d arrays, path flags, container and object restoration loops), plus the fixed point of a second save/load (`roundtrip_fixed`) and attribute-name exactness (`attr_names_exact`). The type-dispatch chain of _serialize_value is translated mechanically from the current source on every run (harness/translator/serdispatch2lean.py -> Generated/SerializeDispatch.lean) and proved equal to the hand model for every CONSISTENT combination of the 30 isinstance/hasattr facts (`generated_dispatch_eq_model` in Props/C01Tie.lean; `Consistent` = the subclass / attribute relations that hold for every Python object, checked on every real object of the dispatch stream); every supported value kind reaches its own branch (`generated_dispatch_kind`), the chain is first-match (`dispatch_first_match`), the kinds for which the order decides are listed (`order_decides`), and what `encode` stores shows that branch (`encode_follows_dispatch`). The argument checks of save() are modelled check by check (`resolveSave_ok_iff`: accepted exactly for level None/0..9, store zip or dir with an extension-less path, target absent or mode 'o'; `resolveSave_level_independent`), and the round trip and the fixed point are proved over every HISTORY of save / load / print_file calls on shared targets, rejected and raising calls included (`roundtrip_history`, `fixed_point_history`, `raised_call_is_noop`, `hstep_frame`). The model is tied to the code on every run by differential round trips of generated graphs through the real save()/load() (zip and dir stores, all compression levels, str/Path, keyword and positional calls), by call histories on shared targets (save, read, overwrite with another graph, rejected / raising saves, in-memory mutation of sources and of loaded objects), by the argument-check grid, by the facts and the branch of real objects of every kind, and the property's own equality is evaluated on the real results as the failing-input search.",
-    "note": "Trusted: Lean kernel + standard axioms; hand model validated by sampled correspondence only; the dispatch translator (~200 lines, cross-checked by the dispatch stream on real objects); the table of facts per value kind (`featOf`) is measured on real objects on every run; torch.save/dill payloads are opaque tokens (fidelity observed via dtype/shape/values/requires_grad fingerprints), zarr/blosc/JSON/zipfile return what was written; in the history model a target holds what the last save that returned normally wrote (staging + install: C08's theorems), so store / compression / path-type independence is proved only as far as `encode` and `resolveSave` do not depend on them and is otherwise MEASURED (every graph on both stores, random level and path type, thorough tier all 11 levels); sequence elements are positional children in the value model; the str(i)/int(k) key layer is modelled separately (Model/SeqKeys.lean), proved to be the identity on every list in every storage order (seqDecode_keyed_perm) and compared with the real container code directly. Recorded findings: numeric-seq-int-float-precision, dict-key-not-a-zarr-node-name, ndarray-non-native-byteorder.",
+    "text": "Lean 4 theorem `roundtrip` (structural induction over the whole value universe, any depth/width/mix): decode(encode v) = canon v for every well-formed object graph of the executable model of serialize.py (ndarray fast path with NumPy promotion, empty/0-d arrays, path flags, container and object restoration loops), plus the fixed point of a second save/load (`roundtrip_fixed`) and attribute-name exactness (`attr_names_exact`). The type-dispatch chain of _serialize_value is translated mechanically from the current source on every run (harness/translator/serdispatch2lean.py -> Generated/SerializeDispatch.lean) and proved equal to the hand model for every CONSISTENT combination of the 30 isinstance/hasattr facts (`generated_dispatch_eq_model` in Props/C01Tie.lean; `Consistent` = the subclass / attribute relations that hold for every Python object, checked on every real object of the dispatch stream); every supported value kind reaches its own branch (`generated_dispatch_kind`), the chain is first-match (`dispatch_first_match`), the kinds for which the order decides are listed (`order_decides`), and what `encode` stores shows that branch (`encode_follows_dispatch`). The argument checks of save() are modelled check by check (`resolveSave_ok_iff`: accepted exactly for level None/0..9, store zip or dir with an extension-less path, target absent or mode 'o'; `resolveSave_level_independent`), and the round trip and the fixed point are proved over every HISTORY of save / load / print_file calls on shared targets, rejected and raising calls included (`roundtrip_history`, `fixed_point_history`, `raised_call_is_noop`, `hstep_frame`). ONE save() END TO END on one target (growth 6, Model/SerializeStoreExt.lean + Props/C01Ext.lean): argument checks + `encode` + `_install()` run on every KIND of directory entry at the target (nothing, file, empty / non-empty directory, symbolic link to a directory / a file / nothing; C08's entry-kind model of the helper) + load: an accepted call never fails inside `_install()`, leaves the staged entry (file for zip, directory for dir) holding the encoded graph, and loads back `canon` of the graph (`saveOnto_roundtrip`); the loaded graph is the same for ANY two accepted configurations and ANY two pre-states of the target (`saveOnto_config_independent`: zip/dir, every level, every path spelling, either mode); the coarse history model of round 5 is a sound abstraction of it (`saveOnto_refines_hstep`), and the round trip holds over every history of saves onto one target (`soRun_roundtrip`, `soRun_protected`). The model is tied to the code on every run by differential round trips of generated graphs through the real save()/load() (zip and dir stores, all compression levels, str/Path, keyword and positional calls), by call histories on shared targets (save, read, overwrite with another graph, rejected / raising saves, in-memory mutation of sources and of loaded objects), by the argument-check grid, by the facts and the branch of real objects of every kind, and the property's own equality is evaluated on the real results as the failing-input search.",
+    "note": "Trusted: Lean kernel + standard axioms; hand model validated by sampled correspondence only; the dispatch translator (~200 lines, cross-checked by the dispatch stream on real objects); the table of facts per value kind (`featOf`) is measured on real objects on every run; torch.save/dill payloads are opaque tokens (fidelity observed via dtype/shape/values/requires_grad fingerprints), zarr/blosc/JSON/zipfile return what was written; in the history model a target holds what the last save that returned normally wrote (staging + install: C08's theorems), store / compression / path-type independence is PROVED at model level end to end (`saveOnto_config_independent`: neither `encode` nor `_install()` on any entry kind depends on them; `saveOnto` is compared with the real save()/load() on all 7 entry kinds x 2 stores x 2 modes on every run) and what zarr / blosc / zipfile do with the level is MEASURED (every graph on both stores, random level and path type, thorough tier all 11 levels); FIXED blocks (independent of the seed, harness/props/c01_g6.py): item-by-item containers with 11..257 items, long numeric sequences with values beyond 255 / 32767 / 2**24, arrays and tensors whose memory order differs from C order (a.T, asfortranarray, transpose(2,0,1), negative strides, broadcast views; H>W and H<W) as attributes and inside containers, arrays beyond one chunk / 64 KiB, same-named classes from two modules in one graph and in one process, dtype classes outside the random generator (datetime64, timedelta64, structured, bytes, float16 must round trip); sequence elements are positional children in the value model; the str(i)/int(k) key layer is modelled separately (Model/SeqKeys.lean), proved to be the identity on every list in every storage order (seqDecode_keyed_perm) and compared with the real container code directly. Recorded findings: numeric-seq-int-float-precision, dict-key-not-a-zarr-node-name, ndarray-non-native-byteorder, ndarray-dtype-not-storable (longdouble / clongdouble / object arrays), npscalar-not-json-representable (np.longdouble / np.datetime64 / np.timedelta64), nested-class-qualname.",
     "technique": "Lean 4 proof (structural induction on nested value/tree types; invariants over call histories) + source-to-Lean translation of the dispatch chain + model-vs-implementation correspondence",
 }
 RULE = ("type-directed random object graphs (every value kind reachable, depth<=4, width<=6, plus aliased members, exact duplicates, "
@@ -26,10 +26,12 @@ RULE = ("type-directed random object graphs (every value kind reachable, depth<=
         "history, distinct (target name, store, mode, outcome, pre-state) of an argument case, distinct (kind, branch) of the dispatch stream")
 TRUSTED = ["torch.save / pickle / dill fidelity (observed through content fingerprints)", "zarr-python, blosc, JSON attribute encoding, zipfile",
            "harness/translator/serdispatch2lean.py (Python ast -> Lean if-chain; branch named by what its body writes)",
-           "os.path.exists / splitext / rename semantics behind the history model (a target holds what the last normally returning save wrote)"]
+           "os.path.exists / splitext / rename semantics behind the history model (a target holds what the last normally returning save wrote)",
+           "Model/SaveInstall.lean primitives (os.remove / shutil.rmtree / os.replace per entry kind): compared with the real filesystem by C08's fs-primitives stream and, composed, by the saveonto block"]
 ASSUMPTIONS = ["dict/object entry order and set order are not compared (zarr lists arrays/groups in directory order)",
                "after a save that raised part-way the target is not read until it is saved again (its content is C08's clause)",
-               "dtype classes outside the generator (datetime64, structured, longdouble, object) are not decided"]
+               "dtype classes outside the random generator are decided by fixed probes only (datetime64 / timedelta64 / structured / bytes / float16: must hold; longdouble / clongdouble / object arrays and NumPy scalars without a JSON form: recorded findings); they are not in the Lean value universe",
+               "class identity is (module, qualname) for classes importable by one getattr (top-level classes); the model carries one class string"]
 EXPLANATION = "see MANIFEST level text"
 
 
